@@ -1569,6 +1569,23 @@ class Normaliser:
             for j, s in enumerate(blk):
                 if not (isinstance(s, ast.Assign) and len(s.targets) == 1 and isinstance(s.value, ast.Name)):
                     continue
+                if isinstance(s.targets[0], ast.Tuple) and all(isinstance(e_, ast.Name) for e_ in s.targets[0].elts) and s.value.id not in known:
+                    # t = R; (statements not touching t, a, b); a, b = t   with t bound and used nowhere else  ->  a, b = R at the binding
+                    t = s.value.id
+                    names = {e_.id for e_ in s.targets[0].elts}
+                    occ = [n for n in ast.walk(func) if (isinstance(n, ast.Name) and n.id == t) or (isinstance(n, ast.arg) and n.arg == t)]
+                    firsts = [i for i in range(j) if isinstance(blk[i], ast.Assign) and len(blk[i].targets) == 1 and isinstance(blk[i].targets[0], ast.Name) and blk[i].targets[0].id == t]
+                    if len(occ) == 2 and len(firsts) == 1 and t not in names \
+                            and not any(isinstance(n, ast.Name) and n.id in names for st in blk[firsts[0]:j] for n in ast.walk(st)) \
+                            and not any(isinstance(n, (ast.Lambda, ast.FunctionDef)) for st in blk[firsts[0]:j] for n in ast.walk(st)):
+                        blk[firsts[0]] = ast.copy_location(ast.Assign(targets=[s.targets[0]], value=blk[firsts[0]].value, lineno=blk[firsts[0]].lineno), blk[firsts[0]])
+                        sp_ = _split_tuple_assign(blk[firsts[0]], names_may_be_impure=True) if isinstance(blk[firsts[0]].value, ast.Tuple) else None
+                        del blk[j]
+                        if sp_:
+                            blk[firsts[0]:firsts[0] + 1] = sp_
+                        self.log.append(f'N4 {path}::{qual}: new local {t} (unpacked later) bound to its targets directly')
+                        return True
+                    continue
                 if not isinstance(s.targets[0], ast.Name):
                     if self._coalesce_path(path, qual, func, known, blk, j):
                         return True
